@@ -11,7 +11,7 @@ def listing():
         out = []
         for line in r.stdout.split('\n'):
             p = line.split()
-            if len(p) == 5 and p[0] in ('type', 'req'):
+            if len(p) == 5 and p[0] in ('type', 'req', 'call'):
                 out.append((p[0], p[1], int(p[2]), int(p[3]), int(p[4])))
         return out
     finally:
@@ -22,6 +22,14 @@ def instances(tier):
     L = 'liteclient'
     out = []
     for kind, gt, nbytes, nvec, nopt in listing():
+        if kind == 'call':
+            # generated request method against the stub transport
+            if not gt.startswith('Test') and not (gt in ('LiteServerGetTime', 'LiteServerGetBlockHeader', 'LiteServerGetMasterchainInfoExt') or tier != 'quick'):
+                continue
+            for bl in ([0, 3] if nbytes else [0]):
+                for vl in ([0, 1] if nvec else [0]):
+                    out.append((L, f'VH_C09_call_{gt}', [bl, vl, -1 if nopt <= 6 else 0], {'weight': 5 + nbytes * bl + 20 * vl}))
+            continue
         if not gt.startswith('Test') and tier == 'quick':
             continue     # the lite_api.tl part of the regenerated file is byte-identical to the checked-in one and is covered by C10
         bls = [0]
@@ -46,8 +54,8 @@ def instances(tier):
 CHECK = dict(
     id='C09', pkgs=['liteclient'], init_pkgs=['std:io', 'liteclient'], instances=instances, opts={'budget_s': 1500, 'unwind': 1200},
     gen=[('harness/gen/gen_c09.py', 'liteclient', 'gen_c09.go')],
-    level_text='Translation validation of the TL generator output: tl/parser (current tree) is run natively on lite_api.tl extended with declarations that exercise what it lacks (an optional for every flag bit 0..31 over every builtin type, pointer optionals named "mode", vectors of builtin and declared types, nested declared types, unions with 2 and 5 constructors incl. an empty one, functions returning unions); its output replaces liteclient/generated.go through the build overlay; every generated MarshalTL/UnmarshalTL and the generated request-decoder table is then executed symbolically against the byte layout computed from the schema text, for all field values within the C10 bounds.',
+    level_text='Translation validation of the TL generator output: tl/parser (current tree) is run natively on lite_api.tl extended with declarations that exercise what it lacks (an optional for every flag bit 0..31 over every builtin type, pointer optionals named "mode", vectors of builtin and declared types, nested declared types, unions with 2 and 5 constructors incl. an empty one, functions returning unions); its output replaces liteclient/generated.go through the build overlay; every generated MarshalTL/UnmarshalTL and the generated request-decoder table is then executed symbolically against the byte layout computed from the schema text, for all field values within the C10 bounds; every generated request METHOD of the test functions (quick: plus three lite-server functions; thorough: all) is run against a stub transport: any value of the result type (incl. the empty constructor of a union: a 4-byte response) laid out per schema comes back as that value, and the bytes handed to the transport are the function id followed by the schema layout of the request.',
     level_note='This decides "the emitted code implements the schema" for this fixed family of declarations, not for all schemas; parser/lexer behaviour and text/template are exercised only through their output. The TL-B generator (tlb/parser) and the determinism clause are not decided by a solver (determinism of two generator runs is recorded as a note in the generator log).',
     bounds={'schema family': 'lite_api.tl + 13 test declarations + 3 test functions', 'byte string lengths': [0, 3, 254], 'vector lengths': [0, 2]},
-    outside_claim=['"for all schemas": programs are a fixed family here', 'TL-B generator (tlb/parser) output', 'generating twice gives identical output (textual comparison, not a solver verdict)', 'request methods beyond their id (need a live transport)'],
+    outside_claim=['"for all schemas": programs are a fixed family here', 'TL-B generator (tlb/parser) output', 'generating twice gives identical output (textual comparison, not a solver verdict)', 'the transport below liteServerRequest (replaced by a stub through the build overlay)', 'lite-server error responses of request methods'],
 )
